@@ -5,7 +5,7 @@
 From Coq Require Import QArith Qreduction Permutation Lia.
 Require Import Gatery.Bits.
 Require Import Gatery.gen.EventOrder.
-Require Import Gatery.SchedDefs Gatery.SchedOrder Gatery.SchedClocks Gatery.SchedTime Gatery.SchedRegs Gatery.SchedRun.
+Require Import Gatery.SchedDefs Gatery.SchedOrder Gatery.SchedClocks Gatery.SchedTime Gatery.SchedRegs Gatery.SchedRun Gatery.SchedReset.
 Import ListNotations.
 Local Close Scope Q_scope.
 
@@ -143,9 +143,16 @@ Lemma ex_refuted_full :
     ~ exists j : N, (ie_time ie == Q_of_N j * (1 / absfreq (cfg_clocks cfg) c))%Q.
 Proof.
   destruct ex_q7_refutes as (ie & Hin & _ & Hd & Hn).
-  exists ex_cfg, 2, 3, ie. repeat split; auto using ex_times_ok, ex_wf.
-  - apply ex_times_ok.
-  - apply ex_times_ok.
-  - apply ex_times_ok.
-  - vm_compute. discriminate.
+  exists ex_cfg, 2, 3, ie.
+  split; [exact ex_times_ok|]. split; [exact ex_wf|]. split; [exact (proj1 ex_q7)|].
+  split; [rewrite (proj1 (proj2 (proj2 ex_q7))); discriminate|].
+  split; [exact Hin|]. split; [exact Hd | exact Hn].
+Qed.
+
+Example ex_hold :
+  mults_positive (cfg_clocks ex_cfg) /\
+  map (fun s => (s, reset_hold_time ex_cfg s)) (reset_pins ex_cfg) = [(0, (1 # 3)%Q); (1, (1 # 7)%Q)].
+Proof.
+  split; [|vm_compute; reflexivity].
+  intros i Hi. simpl in Hi. destruct i as [|[|[|i]]]; try reflexivity. lia.
 Qed.
